@@ -154,6 +154,17 @@ func init() {
 		if st.N == 1 {
 			r.Method = "GET"
 		}
+		// what a hostile client can add: forwarding headers naming another address, extra form fields
+		if x := opt(st.L, "xff", ""); x != "" {
+			r.Header["X-Forwarded-For"] = x
+			r.Header["X-Real-Ip"] = x
+			r.Header["X-Real-IP"] = x
+		}
+		if id := opt(st.L, "identity", ""); id != "" {
+			r.Form.Set("identity", id)
+			r.Form.Set("requestor_netblock", "0.0.0.0/0")
+			r.Form.Set("target_netblock", "0.0.0.0/0")
+		}
 		p.call = w.prepare(r)
 		p.intent.Op = "rolerefresh"
 		p.intent.Role = &vfRoleReq{Identity: a.Subject, Nets: a.Nets, KeyName: keyName, Refresh: true, From: a, Peer: st.Target}
